@@ -633,7 +633,9 @@ def trace_byte_lines(tr, box, kept):
                 lines.append(bytes_line(False, False, 0, [], own(ans), own(add)))
             else:
                 asm = b.get("asm")
-                first = parsed_by_data.get(asm["datas"][0]) if asm and asm.get("datas") else None
+                # the first packet of the query as delivered (`tc_pass`), not as the implementation assembled it
+                datas = b.get("want") or (asm["datas"] if asm else None)
+                first = parsed_by_data.get(datas[0]) if asm and datas else None
                 if first is None:
                     continue
                 lines.append(bytes_line(True, asm["port"] != 5353, first["id"], first["questions"], own(ans), own(add)))
@@ -668,6 +670,9 @@ def run_trace_stream(ctx, res, n, only=None):
             b["phys"] = block_phys(tr, box, b)
         lines.append("c11net %s %d %s" % (world, len(evs), " ".join(evs)))
         case0 = {"stream": "tr", "seed": seed, "scenario": sc_no}
+        # which datagrams each reply must be based on, judged from what was delivered (sets b["want"]; verdicts are C12's)
+        from . import c12 as _c12
+        _c12.tc_pass(C.Result("C12"), tr, [b for b in tr.blocks if b["kind"] == "qf" or b.get("lis") is box["lis"]], case0, box.get("end_t", 0))
         bl, be, bc = trace_byte_lines(tr, box, kept)
         blines += bl
         bexp += be
